@@ -101,7 +101,7 @@ Proof.
   destruct (h_op h =? op_clear); [cbn [snd]; intros k e H; contradiction|].
   destruct (h_op h =? op_store).
   - unfold srv_store.
-    destruct (negb ((h_u2 h + h_u3 h + h_u4 h) mod W32 =? h_size h) || (h_u2 h =? 0)); [exact S|].
+    destruct (negb (h_u2 h + h_u3 h + h_u4 h =? h_size h) || (h_u2 h =? 0)); [exact S|].
     destruct (load_triggers [] (take (h_u4 h) (drop (h_u2 h + h_u3 h) p))) as [trg|]; [|exact S].
     cbn [snd c_store]. intros k e [H|H].
     + inversion H; subst. cbn [e_trg]. apply sins_sorted, mkset_sorted.
